@@ -15,7 +15,10 @@ package main
 //   children             = cost of the field's own selection set (0 for leaves)
 // A negative custom value is always below children (>= 0), hence ignored.
 
-import "math/big"
+import (
+	"math/big"
+	"strings"
+)
 
 const maxInt = int(^uint(0) >> 1)
 
@@ -149,6 +152,12 @@ func (r *refEval) set(sels []*Node, parent string) *big.Int {
 }
 
 func (r *refEval) field(parent string, n *Node, child *big.Int) *big.Int {
+	// The introspection entry point __schema is exempt: the field and everything below it cost
+	// nothing; the rest of the selection set it sits in counts as usual. (complexity.go skips
+	// fields of type __Schema only; __type(name:) is costed like an ordinary field.)
+	if parent == "Query" && n.Name == "__schema" {
+		return big.NewInt(0)
+	}
 	td := schemaTab[parent]
 	if td.Kind != "INTERFACE" {
 		return r.objField(parent, n, child)
@@ -178,7 +187,7 @@ func (r *refEval) field(parent string, n *Node, child *big.Int) *big.Int {
 
 func (r *refEval) objField(object string, n *Node, child *big.Int) *big.Int {
 	// the custom function is configured per Go field: schema fields sharing one are all costed by it
-	if fn, ok := r.as[canon(object+"."+n.Name)]; ok && fn != FnNone && n.Name != "__typename" {
+	if fn, ok := r.as[canon(object+"."+n.Name)]; ok && fn != FnNone && !strings.HasPrefix(n.Name, "__") {
 		var x *big.Int
 		ylen := 0
 		if def, ok := argDefault[object+"."+n.Name]; ok {
